@@ -29,6 +29,17 @@ Proof.
 Qed.
 Print Assumptions C13_builtin_table_documented.
 
+(* every declared built-in is either modelled by the dispatcher call_builtin (42:
+   all of "Input and Output", "Types", "Map", "Program control", "Conversion",
+   "String", "Random", "Math" of docs/builtins.md, plus hsl and clear's argument
+   check) or one of the 17 canvas drawing commands that belong to C19 *)
+Theorem C13_builtin_coverage :
+  forallb (fun sg => Bool.eqb (dispatched sg) (negb (existsb (String.eqb (b_name sg)) canvas_builtins))) builtin_sigs = true /\
+  List.length (filter dispatched builtin_sigs) = 42%nat /\
+  List.length canvas_builtins = 17%nat.
+Proof. vm_compute. repeat split; reflexivity. Qed.
+Print Assumptions C13_builtin_coverage.
+
 (* ---------- len ---------- *)
 Theorem C13_len_codepoints : forall s a b,
   len_str s = List.length s /\
@@ -207,6 +218,44 @@ Theorem C13_rand_nan_before_fix_refuted : forall o, rand_model_before_fix o fc_n
 Proof. intros o. vm_compute. reflexivity. Qed.
 Print Assumptions C13_rand_nan_before_fix_refuted.
 
+(* ---------- hsl ---------- *)
+(* docs/builtins.md: hsl:string hue:num [saturation:num [lightness:num [alpha:num]]];
+   "hue must be between 0 and 360", the others "between 0 and 100", defaults
+   100 / 50 / 100, result a CSS hsl function string.
+   The corrected function (documented range test): *)
+Theorem C13_hsl_fixed_spec : forall o nums,
+  ((List.length nums = 0 \/ 5 <= List.length nums)%nat -> hsl_fixed o nums = OPanic BadArguments) /\
+  ((1 <= List.length nums <= 4)%nat ->
+   hsl_fixed o nums =
+   if hsl_args_ok nums
+   then ORet (VStr (hsl_text o (nth 0 nums fc_zero) (nth 1 nums fc_100) (nth 2 nums fc_50) (nth 3 nums fc_100)))
+   else OPanic BadArguments).
+Proof. intros o nums. split; [apply hsl_arg_count | apply hsl_fixed_spec]. Qed.
+Print Assumptions C13_hsl_fixed_spec.
+
+(* the code (`x < 0 || x > max` is the error case): the same for all numbers —
+   every argument list without a NaN — and the same argument-count panic *)
+Theorem C13_hsl_guarded : forall o nums,
+  ((List.length nums = 0 \/ 5 <= List.length nums)%nat -> hsl_model o nums = OPanic BadArguments) /\
+  (Forall (fun x => is_nan x = false) nums -> hsl_model o nums = hsl_fixed o nums).
+Proof. intros o nums. split; [apply hsl_arg_count | apply hsl_model_spec]. Qed.
+Print Assumptions C13_hsl_guarded.
+
+Theorem C13_hsl_defaults : forall o h sa l,
+  hsl_model o [h] = hsl_model o [h; fc_100; fc_50; fc_100] /\
+  hsl_model o [h; sa] = hsl_model o [h; sa; fc_50; fc_100] /\
+  hsl_model o [h; sa; l] = hsl_model o [h; sa; l; fc_100].
+Proof. exact hsl_defaults. Qed.
+Print Assumptions C13_hsl_defaults.
+
+(* NaN is not "between 0 and 360", yet every range test of the code lets it pass *)
+Theorem C13_hsl_nan_refuted : forall o,
+  hsl_in_range fc_nan fc_360 = false /\
+  hsl_model o [fc_nan] = ORet (VStr (hsl_text o fc_nan fc_100 fc_50 fc_100)) /\
+  hsl_fixed o [fc_nan] = OPanic BadArguments.
+Proof. intros o. vm_compute. repeat split; reflexivity. Qed.
+Print Assumptions C13_hsl_nan_refuted.
+
 (* ---------- repr: keys ---------- *)
 (* model in force (lexer.IsIdent since 09cb4c8): a key is printed bare iff it is
    an identifier (letter/underscore, then letters, digits, underscores), quoted otherwise *)
@@ -364,6 +413,18 @@ Example C13_ex_test_message :
   /\ test_func o [VAny TBool (VBool true); VAny TBool (VBool false); VAny TStr (VStr (s_ "is %v%%"))]
     = OTestFail (s_ "want != got: true != false (is %v%%)").
 Proof. vm_compute. repeat split; reflexivity. Qed.
+
+(* hsl: integer arguments are printed as their digits (no oracle involved);
+   the accepted range is inhabited and has both kinds of neighbours *)
+Example C13_ex_hsl :
+  let o := const_oracles PFSyntax in
+  hsl_model o [fc_lit 120] = ORet (VStr (s_ "hsl(120deg 100% 50% / 100%)"))
+  /\ hsl_model o [fc_lit 360; fc_zero; fc_lit 100; fc_lit 7] = ORet (VStr (s_ "hsl(360deg 0% 100% / 7%)"))
+  /\ hsl_model o [fc_lit 361] = OPanic BadArguments /\ hsl_model o [fc_lit 1; fc_lit 101] = OPanic BadArguments
+  /\ hsl_model o [fc_lit (-1)] = OPanic BadArguments /\ hsl_model o [] = OPanic BadArguments
+  /\ hsl_model o [fc_one; fc_one; fc_one; fc_one; fc_one] = OPanic BadArguments
+  /\ hsl_args_ok [fc_lit 120; fc_half] = true /\ Forall (fun x => is_nan x = false) [fc_lit 120; fc_half].
+Proof. vm_compute. repeat split; try reflexivity. repeat constructor. Qed.
 
 Example C13_ex_exit :
   exit_status (fc_lit 256) = 0%Z /\ exit_status (fc_lit (-1)) = 255%Z /\ exit_status fc_half = 0%Z /\ exit_status (fc_lit 3) = 3%Z
